@@ -6,7 +6,7 @@ CFG = {
     "lean": "Aqv.Props.C18",
     "exe": "aqmodel_c18",
     "harness": "c18",
-    "gen": ["rpc"],
+    "gen": ["rpc", "translated"],
     "overlay": ["rpc/c18_access.go", "node/c18_access.go", "aqua/accounts/keystore/c18_access.go", "aqua/accounts/keystore/c18_hook.go"],
     "trivial_outputs": ["quiet", "-"],
     "timeout": {"quick": 900, "thorough": 3600},
